@@ -311,27 +311,7 @@ def run_shard(pid, tier, seed, shard, nshards, outpath):
         n = budget.get("examples", 0)
         if nshards > 1:
             n = budget.get("examples_per_shard", n)
-        if stats.violation is None and n > 0 and hasattr(mod, "machine"):
-            from hypothesis.stateful import run_state_machine_as_test
-
-            mach = mod.machine(tier, stats)
-            st_settings = settings(
-                max_examples=n,
-                stateful_step_count=budget.get("steps", 30),
-                deadline=None,
-                database=None,
-                report_multiple_bugs=False,
-                suppress_health_check=list(HealthCheck),
-                phases=[Phase.generate, Phase.shrink],
-            )
-            try:
-                run_state_machine_as_test(
-                    hypothesis.seed(seed * 1000 + shard)(mach), settings=st_settings
-                )
-            except Violation as v:
-                if stats.violation is None:
-                    stats.violation = ({"history": "see message"}, str(v))
-        elif stats.violation is None and n > 0:
+        if stats.violation is None and n > 0 and hasattr(mod, "strategy"):
             strat = mod.strategy(tier)
 
             @hypothesis.seed(seed * 1000 + shard)
@@ -356,6 +336,26 @@ def run_shard(pid, tier, seed, shard, nshards, outpath):
                 if stats.violation is None:
                     raise
                 stats.violation = (stats.violation[0], stats.violation[1] + " [flaky: %s]" % e)
+        m = budget.get("machine_examples", 0)
+        if stats.violation is None and m > 0 and hasattr(mod, "machine"):
+            from hypothesis.stateful import run_state_machine_as_test
+
+            mach = mod.machine(tier, stats)
+            st_settings = settings(
+                max_examples=m,
+                stateful_step_count=budget.get("steps", 30),
+                deadline=None,
+                database=None,
+                report_multiple_bugs=False,
+                suppress_health_check=list(HealthCheck),
+                phases=[Phase.generate, Phase.shrink],
+            )
+            try:
+                run_state_machine_as_test(
+                    hypothesis.seed(seed * 1000 + shard)(mach), settings=st_settings
+                )
+            except Violation as v:
+                stats.violation = (getattr(v, "case", {"history": "see message"}), str(v))
     except BaseException as e:  # harness error
         out = {
             "error": "%s: %s\n%s" % (type(e).__name__, e, traceback.format_exc()),
